@@ -381,6 +381,8 @@ def finish(run: Run, evidence_path: str, checker_cmd: str) -> int:
         if rep.undecided:
             undecided.append((f'{q}::unsupported', '; '.join(rep.undecided[:3])))
         con = run.reg.get(q)
+        if rep.undecided:
+            continue
         if not any(v.name.startswith(q + '::cover') and v.status == 'discharged' for v in rep.verdicts):
             run.errors.append(f'{q}: no reachable exit under the contract precondition (vacuous)')
         if con is not None and con.canaries:
